@@ -151,6 +151,12 @@ func runCheck(prop, tier string, seed int) int {
 		}
 		reach := 0
 		nret := 0
+		anyFailed := false
+		for _, o := range r.Obs {
+			if !o.Cover && !o.ok() {
+				anyFailed = true
+			}
+		}
 		for _, o := range r.Obs {
 			all = append(all, o)
 			if o.Cover {
@@ -159,6 +165,11 @@ func runCheck(prop, tier string, seed int) int {
 					if o.Result != "unsat" {
 						reach++
 					}
+				}
+				if o.Result == "unsat" && anyFailed && o.Name != "cover:requires" {
+					// a failed obligation is assumed afterwards, which may make later code unreachable:
+					// the failure is reported, the unreachability is a consequence
+					continue
 				}
 				if o.Result == "unsat" {
 					if o.Name == "cover:requires" {
@@ -219,6 +230,10 @@ func runCheck(prop, tier string, seed int) int {
 		fmt.Println("UNDECIDED", e)
 	}
 	wall := time.Since(t0).Seconds()
+	knownSet = map[string]bool{}
+	for _, k := range knownHit {
+		knownSet[k] = true
+	}
 	writeEvidence(prop, tier, seed, res, all, cfg, g, wall, violations, toolErrs)
 	nd := 0
 	for _, o := range all {
@@ -245,8 +260,11 @@ func runCheck(prop, tier string, seed int) int {
 	return 0
 }
 
+var knownSet = map[string]bool{}
+
 func writeEvidence(prop, tier string, seed int, res []*fnResult, all []*Oblig, cfg *PropCfg, g *Gen, wall float64, violations int, toolErrs []string) {
 	nob, nd := 0, 0
+	nknown, nother := 0, 0
 	byBackend := map[string]int{}
 	var total, maxT float64
 	type slow struct {
@@ -259,6 +277,14 @@ func writeEvidence(prop, tier string, seed int, res []*fnResult, all []*Oblig, c
 	for _, o := range all {
 		if o.Cover {
 			covers[o.Result]++
+			continue
+		}
+		if knownSet[stableName(o)] && !o.ok() {
+			nknown++
+			continue
+		}
+		if tps := tagProps(o.Tag); len(tps) > 0 && !tps[prop] && !o.ok() {
+			nother++
 			continue
 		}
 		nob++
@@ -341,6 +367,8 @@ func writeEvidence(prop, tier string, seed int, res []*fnResult, all []*Oblig, c
 		"vacuity":                  covers,
 		"bounded":                  cfg.Bounded,
 		"tool_errors":              toolErrs,
+		"known_finding_obligations": nknown,
+		"failed_obligations_of_other_properties": nother,
 		"lemmas":                   cfg.Lemmas,
 		"explanation":              "every obligation is one SMT query generated from go/ssa of /repo's working tree and the //@ contracts; 'discharged' counts unsat answers only",
 	}
